@@ -307,10 +307,24 @@ def _check_normal(I, ctx, c, base, result, ghost0):
             ctx.prove(f"{base}/raises.{exc}.{label or 'when'}", I._not(when), detail="returned normally although the raise condition holds")
     if c._has_returns:
         ctx.prove(f"{base}/post.result", I.eq(result, c._returns), detail="result differs from the specified value")
+    def prove_all(name, v):
+        # a list of clauses is proved as one obligation; when that fails the clauses are re-proved one by one so that the
+        # report names the clause (post.<label>#<k>)
+        if isinstance(v, (list, tuple)) and len(v) > 1:
+            if ctx.entails(_conj(I, list(v))):
+                ctx.prove(name, True)
+                return
+            for k, item in enumerate(v):
+                if not ctx.entails(_conj(I, item)):
+                    ctx.prove(f"{name}#{k}", _conj(I, item))
+            ctx.prove(name, _conj(I, list(v)))
+        else:
+            ctx.prove(name, _conj(I, v))
+
     for label, fn in c._ensures:
-        ctx.prove(f"{base}/post.{label}", _conj(I, fn(result)))
+        prove_all(f"{base}/post.{label}", fn(result))
     for label, thunk in c._posts:
-        ctx.prove(f"{base}/post.{label}", _conj(I, thunk()))
+        prove_all(f"{base}/post.{label}", thunk())
     for counter, bound in c._ghost_bounds:
         cur = ctx.ghost.get(counter, 0)
         ctx.prove(f"{base}/ghost.{counter}", simp(Z(cur) - Z(ghost0.get(counter, 0)) <= Z(bound)))
